@@ -1,5 +1,5 @@
 """C14 — optional build features do not change results (structural clauses over 11 build configurations)."""
-from ..rules import features, engine, data, text, parser, validate
+from ..rules import features, engine, data, text, parser, validate, summary
 
 EXPL = ("Decides: SA-CFGDIFF: all MIR bodies reduced to their effects are compared across build configurations - debug assertions "
         "on/off change no body at all (dbg, strict_dbg, unsafe_dbg against their release twins), and each feature changes only the "
@@ -57,4 +57,5 @@ def run(ctx):
         ctx.cfg = c
         ctx.guard("C14", "strict-total", lambda: parser.totality(ctx, prog))
         ctx.guard("C14", "strict-look", lambda: parser.strict_lookahead(ctx, prog))
+        ctx.guard("C14", "summaries", lambda: summary.check(ctx, prog, '_unchecked$|internals::intrinsics::', floor=2))
     return ctx.finish(EXPL, ["from_utf8 accepts exactly what from_utf8_unchecked assumes when the input is ASCII", "effect reduction treats calls without &mut arguments as pure unless their result is kept"])
